@@ -61,6 +61,17 @@ func (s *Symbols) intVal(v ssa.Value, env Env) (int64, bool) {
 			return x, ok2
 		}
 	}
+	// simple integer arithmetic over symbols (x - y, x + y); the abstract domains are chosen so that unsigned wrap cannot occur
+	if b, ok := v.(*ssa.BinOp); ok && (b.Op == token.ADD || b.Op == token.SUB) {
+		x, okx := s.intVal(b.X, env)
+		y, oky := s.intVal(b.Y, env)
+		if okx && oky {
+			if b.Op == token.ADD {
+				return x + y, true
+			}
+			return x - y, true
+		}
+	}
 	return 0, false
 }
 
@@ -204,7 +215,7 @@ func verdictWord(b bool) string {
 // retSucceedsAlong refines the verdict of a return whose operand is a phi by
 // the edge actually taken on the walk.
 func (c *Ctx) retSucceedsAlong(ec *ssau.ExitClassifier, res ssau.AbsResult) bool {
-	v := res.Ret.Results[ec.Idx]
+	v := ssau.ResolveSpill(res.Ret.Results[ec.Idx])
 	phi, ok := v.(*ssa.Phi)
 	if !ok || phi.Block() != res.Ret.Block() {
 		return true
